@@ -774,6 +774,13 @@ class PhaseField(_IModel):
         def normalize_matrix(M):
             return M / Norm(M, axis=(-2, -1))
 
+        def rank_one_in_plane(P: np.ndarray) -> np.ndarray:
+            # P (n, 3, 3) projects on a plane; returns m ⊗ m with m a unit vector of that plane
+            idx = np.arange(P.shape[0])
+            k = np.argmax(np.einsum("nii->ni", P), axis=1)
+            m = P[idx, :, k] / np.sqrt(P[idx, k, k])[:, None]
+            return m[:, :, None] * m[:, None, :]
+
         if self.dim == 2:
             # invariants of the strain tensor [e,pg]
             det_e_pg = Det(matrix_e_pg)
@@ -810,18 +817,21 @@ class PhaseField(_IModel):
             # [Q.-C. He Closed-form coordinate-free]
 
             # Invariants
+            # g = I1² - 3 I2 and 2 I1³ - 9 I1 I2 + 27 I3 are computed with the
+            # deviatoric part to avoid cancellations when the eigenvalues are close.
             I1_e_pg = Trace(matrix_e_pg)
-            I2_e_pg = 1 / 2 * (I1_e_pg**2 - Trace(matrix_e_pg @ matrix_e_pg))
-            I3_e_pg = Det(matrix_e_pg)
+            tr2_e_pg = Trace(matrix_e_pg @ matrix_e_pg)
+            dev_e_pg = matrix_e_pg - I1_e_pg / 3 * I_e_pg
 
             tic.Tac("Split", "Invariants", False)
 
-            g_e_pg = I1_e_pg**2 - 3 * I2_e_pg
+            g_e_pg = 3 / 2 * Trace(dev_e_pg @ dev_e_pg)
             sqrt_g_e_pg = np.sqrt(g_e_pg)
 
-            g_neq_0 = g_e_pg != 0
+            # g = 3/2 ||dev||² is compared with ||matrix||² (rounding makes g != 0)
+            g_neq_0 = np.asarray(g_e_pg) > 1e-14 * np.asarray(tr2_e_pg)
 
-            arg = 1 / 2 * (2 * I1_e_pg**3 - 9 * I1_e_pg * I2_e_pg + 27 * I3_e_pg)
+            arg = 27 / 2 * Det(dev_e_pg)
             np.divide(
                 arg,
                 g_e_pg ** (3 / 2),
@@ -830,15 +840,18 @@ class PhaseField(_IModel):
             )
 
             # Lode's angle such that 0 <= theta <= pi/3
-            theta = 1 / 3 * np.arccos(arg)
+            # (rounding can push arg slightly outside [-1, 1])
+            theta = 1 / 3 * np.arccos(np.clip(np.asarray(arg), -1, 1))
+            tol_theta = 1e-5
+            sqrt_g = np.asarray(sqrt_g_e_pg)
 
             # -------------------------------------
             # Init eigenvalues an eigenprojectors for case 4
             # 𝜖1 = 𝜖2 = 𝜖3 ⇐⇒ 𝑔 = 0.
             # -------------------------------------
-            val1_e_pg = I1_e_pg / 3
-            val2_e_pg = I1_e_pg / 3
-            val3_e_pg = I1_e_pg / 3
+            val1_e_pg = np.asarray(I1_e_pg / 3)
+            val2_e_pg = np.asarray(I1_e_pg / 3)
+            val3_e_pg = np.asarray(I1_e_pg / 3)
 
             # Init proj matrices
             M1 = FeArray.zeros(*matrix_e_pg.shape)
@@ -858,18 +871,24 @@ class PhaseField(_IModel):
             # arg = -1
             # -------------------------------------
 
-            test2 = g_neq_0 & (theta == np.pi / 3)
+            test2 = g_neq_0 & (np.pi / 3 - theta <= tol_theta)
 
-            case2 = np.unique(np.where(test2)[0])
+            # cases are detected for each gauss point
+            case2 = test2
 
-            if len(case2) > 0:
-                val1_e_pg[case2] += -2 / 3 * sqrt_g_e_pg[case2]
-                val2_e_pg[case2] += 1 / 3 * sqrt_g_e_pg[case2]
-                val3_e_pg[case2] += 1 / 3 * sqrt_g_e_pg[case2]
+            if case2.any():
+                val1_e_pg[case2] += -2 / 3 * sqrt_g[case2]
+                val2_e_pg[case2] += 1 / 3 * sqrt_g[case2]
+                val3_e_pg[case2] += 1 / 3 * sqrt_g[case2]
 
-                M1[case2] = (g_e_pg ** (-1 / 2) * (I_rg - matrix_e_pg))[case2]
-                # M2[case2] = 1 / 2 * (I_e_pg - M1)[case2]
-                M3[case2] = 1 / 2 * (I_e_pg - M1)[case2]
+                # M1 = (𝜖2 I - 𝜖) / (𝜖2 - 𝜖1) with 𝜖2 = (I1 + sqrt(g)) / 3
+                I_rg2 = 1 / 3 * ((I1_e_pg + sqrt_g_e_pg) * I_e_pg)
+                M1[case2] = (
+                    np.asarray(I_rg2 - matrix_e_pg)[case2]
+                    / sqrt_g[case2][:, None, None]
+                )
+                # M2 and M3 are rank-one projectors in the plane I - M1
+                M3[case2] = rank_one_in_plane(np.asarray(I_e_pg - M1)[case2])
 
                 tic.Tac("Split", "proj case 2", False)
 
@@ -879,17 +898,21 @@ class PhaseField(_IModel):
             # arg = 1
             # -------------------------------------
 
-            test3 = g_neq_0 & (theta == 0)
+            test3 = g_neq_0 & (theta <= tol_theta)
 
-            case3 = np.unique(np.where(test3)[0])
+            case3 = test3
 
-            if len(case3) > 0:
-                val1_e_pg[case3] += -1 / 3 * sqrt_g_e_pg[case3]
-                val2_e_pg[case3] += -1 / 3 * sqrt_g_e_pg[case3]
-                val3_e_pg[case3] += 2 / 3 * sqrt_g_e_pg[case3]
+            if case3.any():
+                val1_e_pg[case3] += -1 / 3 * sqrt_g[case3]
+                val2_e_pg[case3] += -1 / 3 * sqrt_g[case3]
+                val3_e_pg[case3] += 2 / 3 * sqrt_g[case3]
 
-                M3[case3] = (g_e_pg ** (-1 / 2) * (matrix_e_pg - I_rg))[case3]
-                M1[case3] = 1 / 2 * (I_e_pg - M3)[case3]
+                M3[case3] = (
+                    np.asarray(matrix_e_pg - I_rg)[case3]
+                    / sqrt_g[case3][:, None, None]
+                )
+                # M1 and M2 are rank-one projectors in the plane I - M3
+                M1[case3] = rank_one_in_plane(np.asarray(I_e_pg - M3)[case3])
                 # M2[case3] = 1 / 2 * (I_e_pg - M3)[case3]
 
                 tic.Tac("Split", "proj case 3", False)
@@ -899,26 +922,24 @@ class PhaseField(_IModel):
             # 𝜖1 < 𝜖2 < 𝜖3 ⇐⇒ 𝑔 ≠ 0, 𝜃 ≠ 0, 𝜃 ≠ 𝜋∕3.
             # -------------------------------------
 
-            test1 = g_neq_0 & (theta != 0) & (theta != np.pi / 3)
+            case1 = g_neq_0 & ~case2 & ~case3
 
-            case1 = np.setdiff1d(
-                np.unique(np.where(test1)[0]), np.union1d(case2, case3)
-            )
-
-            if len(case1) > 0:
-                val1_e_pg[case1] += (
-                    2 / 3 * (sqrt_g_e_pg * np.cos(2 * np.pi / 3 + theta))[case1]
-                )
-                val2_e_pg[case1] += (
-                    2 / 3 * (sqrt_g_e_pg * np.cos(2 * np.pi / 3 - theta))[case1]
-                )
-                val3_e_pg[case1] += 2 / 3 * (sqrt_g_e_pg * np.cos(theta))[case1]
+            if case1.any():
+                # eigenvalues of the deviatoric part
+                th_c1 = theta[case1]
+                d1_c1 = 2 / 3 * sqrt_g[case1] * np.cos(2 * np.pi / 3 + th_c1)
+                d2_c1 = 2 / 3 * sqrt_g[case1] * np.cos(2 * np.pi / 3 - th_c1)
+                d3_c1 = 2 / 3 * sqrt_g[case1] * np.cos(th_c1)
+                val1_e_pg[case1] += d1_c1
+                val2_e_pg[case1] += d2_c1
+                val3_e_pg[case1] += d3_c1
 
                 # Compute projectors only on the case1 subset — avoids full-(Ne,nPg) matmuls
-                v1_c1 = val1_e_pg[case1]
-                v2_c1 = val2_e_pg[case1]
-                v3_c1 = val3_e_pg[case1]
-                mat_c1 = matrix_e_pg[case1]
+                # (the deviatoric part has the same eigenprojectors)
+                v1_c1 = d1_c1[:, None, None]
+                v2_c1 = d2_c1[:, None, None]
+                v3_c1 = d3_c1[:, None, None]
+                mat_c1 = np.asarray(dev_e_pg)[case1]
 
                 M1[case1] = (
                     (mat_c1 - v2_c1 * np.eye(3))
